@@ -556,8 +556,9 @@ def fcs_negotiation(ctx):
         echo = [st for st in refusals if norm(st.value) == '[option]']
         R.check(bool(refusals) and not echo, rule, 'bumble.l2cap.ClassicChannel.on_configure_request | refusal suggests an acceptable value', 'the refused FCS value is not echoed back',
                 'the FCS refusal echoes the refused option: the requester "re-configures with what is suggested", i.e. asks the same thing again, for ever', p.loc(arm.pattern))
-        accepts = [n_ for n_ in ast.walk(arm) if isinstance(n_, ast.If) and any(isinstance(x, ast.Assign) and dotted(x.targets[0]) == 'self.fcs_enabled' for x in n_.body)]
-        ok = any(any(norm(v) == 'not enabled' for v in (t.test.values if isinstance(t.test, ast.BoolOp) and isinstance(t.test.op, ast.Or) else [t.test])) for t in accepts)
+        # the refusal is reached only when FCS *is* requested (whatever the shape of the test: `if not enabled or supported`
+        # with the refusal in the else, or `if enabled and not supported` with the refusal in the body)
+        ok = bool(refusals) and all(any(norm(t) == 'enabled' and pol for t, pol in paths.flat_guards(st, stop=rq)) for st in refusals)
         R.check(ok, rule, 'bumble.l2cap.ClassicChannel.on_configure_request | "no FCS" always acceptable', 'a request for no FCS is accepted whether or not the option is supported',
                 'a peer that asks for "no FCS" (the value suggested in a refusal) is refused too when the option is unsupported: the negotiation cannot converge', p.loc(arm.pattern))
     # requester side: the suggested value is adopted
